@@ -3,6 +3,8 @@ import Dia.Exec
 import Dia.Server
 import Dia.Fixed
 import Dia.ClientPolite
+import Dia.Tls
+import Dia.Accept
 /-! Line-protocol interpreter (DESIGN.md Appendix A): one operation per input line, one answer line
 `<impl> | <spec> | <reason>` per operation. Imports model files only (no Mathlib), so it links as an executable. -/
 open Dia
@@ -213,6 +215,58 @@ def ctraceLine (evs answers : String) : String :=
       " polite=" ++ bit r.polite ++ " reader=" ++ readerTag r.s.reader ++ " closed=" ++ bit r.s.closed ++
       " wire=" ++ toString r.s.wire.length ++ " | -"
 
+/-! ### real-socket scenarios: predictions of the TLS table (C13) and of the listener model (C10) -/
+
+def kvOf (toks : List String) (k : String) : Option String :=
+  toks.findSome? fun t => match t.splitOn "=" with | [a, b] => if a = k then some b else none | _ => none
+
+def tlsLine (toks : List String) : String :=
+  let b (k : String) := kvOf toks k == some "1"
+  let cert : Tls.Cert := match kvOf toks "cert" with
+    | some "wrongname" => .wrongName | some "untrusted" => .untrusted | _ => .good
+  let addr : Tls.AddrKind := match kvOf toks "addr" with | some "ip" => .ip | some "ip6" => .ip6 | _ => .host
+  let c : Tls.Cell := ⟨b "ctls", b "verify", b "stls", cert, addr⟩
+  let o := Tls.outcome c ['3', '8', '6', '8']
+  let cls := match o with | .session => "session" | .plain => "plain" | .refused => "refused"
+  let answered := o != .refused
+  cls ++ " clear=" ++ bit (Tls.clearText c) ++ " answered=" ++ bit answered ++ " served=" ++ bit answered ++
+    " | " ++ (match Tls.expected c with | .session => "session" | .plain => "plain" | .refused => "refused") ++ " | -"
+
+def faultItems (kind : String) (k : Nat) : List Acc.Item × Bool :=   -- (what the peer sends, does it finish a handshake)
+  match kind with
+  | "none" => ([], true)
+  | "stall_handshake" => ([], false)
+  | "half_hello" => ([], false)
+  | "malformed" => ([.req (900000 + k), .bad], true)
+  | "oversized" => ([.bad], true)
+  | "short" => ([.bad], true)
+  | "stall_midframe" => ([], true)
+  | "reset" => ([.req (910000 + k), .close], true)
+  | "panic" => ([.boom (920000 + k)], true)
+  | _ => ([], true)
+
+def lsnLine (toks : List String) : String :=
+  let n (k : String) (d : Nat) := ((kvOf toks k).bind String.toNat?).getD d
+  let tls := kvOf toks "tls" == some "1"
+  let good := n "good" 1
+  let reqs := n "reqs" 3
+  let nf := if kvOf toks "fault" == some "none" then 0 else n "nfaulty" 1
+  let kind := (kvOf toks "fault").getD "none"
+  let cfg : Acc.Cfg := ⟨tls, false⟩
+  -- connections: 0..good-1 well behaved, good..good+nf-1 faulty, good+nf the late one
+  let conns : List (Nat × List Acc.Item × Bool) :=
+    ((List.range good).map fun c => (c, (List.range reqs).map (fun i => Acc.Item.req (c * 1000 + i)), true)) ++
+    ((List.range nf).map fun k => (good + k, (faultItems kind k).1, (faultItems kind k).2)) ++
+    [(good + nf, [.req 770000, .req 770001], true)]
+  let stepOr (s : Acc.St) (l : Acc.Label) : Acc.St := (Acc.step cfg s l).getD s
+  let s := conns.foldl (fun s (c, _, _) => stepOr s (.arrive c)) ({} : Acc.St)
+  let s := conns.foldl (fun s (c, _, _) => stepOr s (.accept c)) s
+  let s := conns.foldl (fun s (c, _, hs) => if hs then stepOr s (.hsDone c) else s) s
+  let s := conns.foldl (fun s (c, items, _) => items.foldl (fun s it => stepOr s (.send c it)) s) s
+  let s := conns.foldl (fun s (c, items, _) => Acc.serveAll cfg c (items.length + 1) s) s
+  let per := (List.range good).map fun c => toString (s.out c).length
+  "clients=" ++ String.intercalate "," per ++ " astray=0 late=" ++ toString (s.out (good + nf)).length ++ " | - | -"
+
 def statusStr : Status → String
   | .ok => "ok" | .err => "err" | .bad => "bad"
 
@@ -367,6 +421,8 @@ def step (s : DState) (line : String) : DState × String :=
     match unhex? h with
     | some bs => (s, decLine s.cfg s.ms.dict bs)
     | none => plain s "bad-op"
+  | "tls" :: rest => (s, tlsLine rest)
+  | "lsn" :: rest => (s, lsnLine rest)
   | ["ctrace", evs, answers] => (s, ctraceLine evs answers)
   | ["msave"] => plain { s with saved := s.saved.push s.ms.msg, ms := { s.ms with msg := Msg.new 272 4 0 0 0 } } "ok"
   | ["mclear"] => plain { s with saved := #[] } "ok"
